@@ -2,6 +2,7 @@
 import itertools
 from fractions import Fraction
 
+import numpy as np
 from hypothesis import strategies as st
 
 from vlib.core import lib_frames, Part, Violation, Discard, call
@@ -25,6 +26,9 @@ RULE = ("(flat) EXHAUSTIVE: every operator sequence of length 1..4 over + - * / 
         "ungrammatical by construction must raise UnableToParse/UnbalancedBrackets. (case) a case-variant of a bound "
         "name must be rejected as undefined. (verdict) Numerical/FormulaGrader verdicts on constant expressions. "
         "Distinct by spec hash."
+        " 'matrices' (random): 13 formula shapes over 2x2 / 3x3 integer matrix literals of determinant +-1, +-2 (powers "
+        "with signed exponents, products, inverses, mixed with scalars and vectors) against numpy.linalg; before the "
+        "evaluation a MatrixGrader (negative powers off / on) has, in 5 of 7 cases, just refused or graded a submission."
         " 'not-numbers' (exhaustive): strings other number parsers accept (1_0, 0x10, digits of other scripts, inf / nan words) and default names used while an explicitly empty table is supplied: never a value. Every tree is also evaluated with numpy-scalar bindings and in a second scope (other values, other suffix multipliers). 'trees-fuzz' / 'invalid-fuzz' (thorough): coverage-guided campaigns over the same strategies and oracles.")
 ASSUMPTIONS = ["value comparison tolerance 1e-9*max(1,|ref|,largest intermediate); cases with |intermediate|>1e12, "
                "within 1e-9 of a branch cut/pole, or ill-conditioned under a 1e-12 perturbation are discarded",
@@ -35,6 +39,7 @@ REQUIRED = {'pole/judged': 10, 'distinguishes/pow-left': 500, 'distinguishes/neg
             'distinguishes/exp-sign-local': 100, 'distinguishes/flat-prec': 500,
             'tree/suffix': 100, 'tree/spaces': 300, 'tree/tabs-newlines': 300, 'tree/emdash': 100,
             'tree/redundant-parens': 300, 'tree/complex': 100, 'invalid/judged': 500, 'case/judged': 100,
+            'matrix/negative-exponent': 100, 'matrix/event/np-off-refuses-inverse': 30, 'matrix/event/np-off-undefined-name': 30,
             'named/-2^2': 1, 'named/2^3||6': 1, 'named/8/4*2': 1, 'named/2*-3^2': 1, 'named/2^-2^2': 1}
 
 # ----------------------------------------------------------------------------------------------------
@@ -831,6 +836,102 @@ def judge_verdict(spec, rec):
     return {'expect': a, 'student': b}
 
 
+# ----------------------------------------------------------------------------------------------------
+# matrices: the same operator semantics over square-matrix literals (integer powers incl. a signed exponent)
+
+M_FORMS = [
+    ('{A}^{n}', lambda A, B, v, k, n: mpow(A, n)),
+    ('-{A}^{n}', lambda A, B, v, k, n: -mpow(A, n)),
+    ('{k}*{A}^-{m}', lambda A, B, v, k, n: k * mpow(A, -abs(n))),
+    ('{A}^-1^2', lambda A, B, v, k, n: mpow(A, -1)),
+    ('{A}^-2^2', lambda A, B, v, k, n: mpow(A, -4)),
+    ('{A}*{B}^-1', lambda A, B, v, k, n: A @ mpow(B, -1)),
+    ('{A}^2*{B}', lambda A, B, v, k, n: A @ A @ B),
+    ('{A}*{B}-{B}*{A}', lambda A, B, v, k, n: A @ B - B @ A),
+    ('({A}+{B})^2', lambda A, B, v, k, n: (A + B) @ (A + B)),
+    ('{A}^{n}*{v}', lambda A, B, v, k, n: mpow(A, n) @ v),
+    ('{A}/{k}+{B}^{n}', lambda A, B, v, k, n: A / k + mpow(B, n)),
+    ('({A}^-1)^-1', lambda A, B, v, k, n: A),
+    ('{A}^-{m}*{A}^{m}', lambda A, B, v, k, n: np.eye(len(A))),
+]
+M_EVENTS = ['none', 'none', 'np-off-refuses-inverse', 'np-off-undefined-name', 'np-off-success', 'np-on-singular',
+            'np-off-wrong-shape']
+
+
+def mpow(A, n):
+    return np.linalg.matrix_power(A, n)
+
+
+def mtext(A, spaced):
+    sep = ', ' if spaced else ','
+    if A.ndim == 1:
+        return '[' + sep.join(str(int(x)) for x in A) + ']'
+    return '[' + sep.join('[' + sep.join(str(int(x)) for x in row) + ']' for row in A) + ']'
+
+
+@st.composite
+def square(draw, dim):
+    for _ in range(6):
+        A = np.array(draw(st.lists(st.integers(-3, 3), min_size=dim * dim, max_size=dim * dim)), dtype=float).reshape(dim, dim)
+        if abs(round(np.linalg.det(A))) in (1, 2):
+            return A.tolist()
+    return (np.eye(dim) + np.triu(np.ones((dim, dim)), 1)).tolist()       # unit upper triangular: determinant 1
+
+
+def strat_matrices(tier):
+    return st.integers(2, 3).flatmap(lambda dim: X.fixed_dict({
+        'A': square(dim), 'B': square(dim), 'v': st.lists(st.integers(-3, 3), min_size=dim, max_size=dim),
+        'k': st.sampled_from([2, 3, -2, 5]), 'n': st.sampled_from([-3, -2, -1, -1, 0, 1, 2, 3]),
+        'form': st.integers(0, len(M_FORMS) - 1), 'event': st.integers(0, len(M_EVENTS) - 1), 'spaced': st.booleans()}))
+
+
+def matrix_event(name, atext):
+    """What happened in the process just before the evaluation: a MatrixGrader (an object that switches the library's
+    negative-power behaviour for the duration of ITS check) graded or refused a submission."""
+    from mitxgraders import MatrixGrader
+    if name == 'none':
+        return
+    if name == 'np-on-singular':
+        g, sub = MatrixGrader(answers=atext, max_array_dim=2), '[[1,1],[1,1]]^-1'
+    else:
+        g = MatrixGrader(answers=atext, max_array_dim=2, negative_powers=False)
+        sub = {'np-off-refuses-inverse': atext + '^-1', 'np-off-undefined-name': 'Q*2', 'np-off-success': atext,
+               'np-off-wrong-shape': '[1,2,3,4,5]+' + atext}[name]
+    call(g, None, sub)
+
+
+def judge_matrix(spec, rec):
+    A, B, v = np.array(spec['A']), np.array(spec['B']), np.array(spec['v'], dtype=float)
+    k, n = spec['k'], spec['n']
+    template, ref_fn = M_FORMS[spec['form']]
+    names = {'A': mtext(A, spec['spaced']), 'B': mtext(B, spec['spaced']), 'v': mtext(v, spec['spaced']),
+             'k': str(k), 'n': str(n), 'm': str(abs(n))}
+    text = template.format(**names)
+    if spec['spaced']:
+        text = text.replace('*', ' * ').replace('^', ' ^ ')
+    want = np.asarray(ref_fn(A, B, v, k, n), dtype=float)
+    matrix_event(M_EVENTS[spec['event']], names['A'])
+    kind, out = call(evaluator, text, {}, {}, {}, max_array_dim=2)
+    rec.calls()
+    if kind == 'err':
+        if isinstance(out, MITxError):
+            raise Violation('matrix/raised/' + type(out).__name__, '%r (documented value %s) raised %s: %s%s' % (
+                text, want.tolist(), type(out).__name__, out,
+                '' if M_EVENTS[spec['event']] == 'none' else ' [just before: MatrixGrader event %r]' % M_EVENTS[spec['event']]))
+        raise out
+    got = np.asarray(out[0], dtype=complex)
+    scale = max(1.0, float(np.max(np.abs(want))))
+    if got.shape != want.shape or not np.all(np.abs(got - want) <= 1e-8 * scale):
+        raise Violation('matrix/value', '%r evaluated to %s, documented operator semantics give %s' % (
+            text, got.tolist(), want.tolist()))
+    rec.nontrivial(True)
+    rec.cls('matrix/form/' + template)
+    rec.cls('matrix/event/' + M_EVENTS[spec['event']])
+    if n < 0:
+        rec.cls('matrix/negative-exponent')
+    return {'text': text, 'value': want.tolist()}
+
+
 PARTS = [
     Part('flat', 'enum', judge_flat, items=items_flat, exhaustive=True),
     Part('literals', 'enum', judge_literal, items=items_literals, exhaustive=True),
@@ -839,6 +940,7 @@ PARTS = [
     Part('invalid', 'hyp', judge_invalid, strategy=strat_invalid, budget={'quick': 3000, 'thorough': 60000}),
     Part('case', 'hyp', judge_case, strategy=strat_case, budget={'quick': 1200, 'thorough': 20000}),
     Part('verdict', 'hyp', judge_verdict, strategy=strat_verdict, budget={'quick': 800, 'thorough': 15000}),
+    Part('matrices', 'hyp', judge_matrix, strategy=strat_matrices, budget={'quick': 1500, 'thorough': 40000}),
     # coverage-guided (atheris/libFuzzer over the same strategies and oracles; thorough tier only, vlib/fuzzworker.py)
     Part('trees-fuzz', 'fuzz', judge_tree, strategy=strat_trees, budget={'quick': 0, 'thorough': 160000}),
     Part('invalid-fuzz', 'fuzz', judge_invalid, strategy=strat_invalid, budget={'quick': 0, 'thorough': 160000}),
